@@ -1602,6 +1602,9 @@ def fuse_events(events: List[Event]) -> List[Event]:
             changed = True
             continue
         guards = cg
+        if e.kind == "call" and term[0] != "call":
+            changed = True          # (a copy of a collection that is read as the collection: no call of its own)
+            continue
         parts = T.fuse_elem(("elem", ("§ev", term, guards), (), iters)) if any(T.is_term(i) and i[0] == "it" and len(i) >= 3 and T._plain_bag(i[2]) is not None and T._plain_bag(i[2])[1] for i in iters) else None
         if parts is None:
             if term is not e.term and (term != e.term or guards != e.guards or iters != e.iters):
@@ -2085,6 +2088,80 @@ def _takes(t: Any) -> bool:
     return any(x[0] == "call" and ((x[1][0] == "attr" and x[1][2] in _TAKERS) or (x[1][0] == "glob" and x[1][1].rsplit(".", 1)[-1] in _TAKERS)) for x in T.subterms(t))
 
 
+def thin_wrappers(prog: Program) -> Dict[str, Tuple[FuncInfo, FuncInfo, Optional[str], List[str], Dict[str, str]]]:
+    """Functions of the pinned tree that a later change turned into a mere spelling of a new function or method
+    (`def f(a, b, c=0): return a.g(b, c=c)`): simple name of the new one -> (f, g, receiver parameter, positional
+    parameters, keyword -> parameter).  A call of g is then read as the call of f that it stands for: f stays
+    the name of the operation for every rule that knows it."""
+    cached = getattr(prog, "_thin", None)
+    if cached is not None:
+        return cached
+    prog._thin = {}  # type: ignore[attr-defined]
+    by_name: Dict[str, List[FuncInfo]] = {}
+    for f in prog.all_functions():
+        if not isinstance(f.node, ast.Lambda):
+            by_name.setdefault(f.name, []).append(f)
+    out = {}
+    for F in prog.all_functions():
+        if isinstance(F.node, ast.Lambda) or is_new_helper(F) or F.cls is not None or F.parent is not None:
+            continue
+        body = [st for st in F.node.body if not (isinstance(st, ast.Expr) and isinstance(st.value, ast.Constant))]
+        if len(body) != 1 or not isinstance(body[0], ast.Return) or not isinstance(body[0].value, ast.Call):
+            continue
+        cl = body[0].value
+        recv = None
+        if isinstance(cl.func, ast.Attribute) and isinstance(cl.func.value, ast.Name):
+            recv, nm = cl.func.value.id, cl.func.attr
+        elif isinstance(cl.func, ast.Name):
+            nm = cl.func.id
+        else:
+            continue
+        cands = by_name.get(nm, [])
+        if len(cands) != 1 or not is_new_helper(cands[0]) or (recv is None) != (cands[0].cls is None):
+            continue
+        if not all(isinstance(a, ast.Name) for a in cl.args) or not all(k.arg is not None and isinstance(k.value, ast.Name) for k in cl.keywords):
+            continue
+        used = ([recv] if recv else []) + [a.id for a in cl.args] + [k.value.id for k in cl.keywords]
+        if sorted(used) != sorted(F.params) or len(set(used)) != len(used):
+            continue
+        out[nm] = (F, cands[0], recv, [a.id for a in cl.args], {k.arg: k.value.id for k in cl.keywords})
+    prog._thin = out  # type: ignore[attr-defined]
+    return out
+
+
+def _as_wrapper_call(prog: Program, fi: FuncInfo, e: Event) -> Optional[Term]:
+    """The call of the pinned tree's function that a call of the new function it merely wraps stands for."""
+    f = e.term[1]
+    nm = f[2] if f[0] == "attr" else f[1].rsplit(".", 1)[-1] if f[0] == "glob" else None
+    tw = thin_wrappers(prog).get(nm) if nm is not None else None
+    if tw is None:
+        return None
+    F, G, recv, pos, kwm = tw
+    if fi.qualname == F.qualname or fi.qualname == G.qualname:
+        return None
+    if (recv is not None) != (f[0] == "attr"):
+        return None
+    mapping = _bind_params(G, f[1] if recv is not None else None, e.term[2], e.term[3])
+    if mapping is None:
+        return None
+    gp = list(G.params)
+    of: Dict[str, Term] = {}
+    if recv is not None:
+        of[recv] = mapping[T.var(gp[0])]
+        gp = gp[1:]
+    for fp, g_name in zip(pos, gp):
+        of[fp] = mapping[T.var(g_name)]
+    for g_name, fp in kwm.items():
+        of[fp] = mapping[T.var(g_name)]
+    vals = [of[p] for p in F.params]
+    a = F.node.args
+    names = [x.arg for x in a.posonlyargs + a.args]
+    dfl = {n: d.value for n, d in zip(names[len(names) - len(a.defaults):], a.defaults) if isinstance(d, ast.Constant)}
+    while vals and F.params[len(vals) - 1] in dfl and vals[-1] == T.const(dfl[F.params[len(vals) - 1]]):
+        vals.pop()
+    return ("call", T.glob(F.qualname), tuple(vals), ())
+
+
 def _splice_pass(prog: Program, fi: FuncInfo, events: List[Event]) -> Tuple[List[Event], bool]:
     subst: Dict[Term, Term] = {}
     out: List[Event] = []
@@ -2116,6 +2193,13 @@ def _splice_pass(prog: Program, fi: FuncInfo, events: List[Event]) -> Tuple[List
             # inside such a body: under the try context of the yield
             ytries = tuple(t for pc in pending_cm for t in pc[7])
             e = Event(e.idx, e.kind, e.term, e.raw, e.node, e.stmt, e.guards, e.iters, e.tries[:pending_cm[0][8]] + ytries + e.tries[pending_cm[0][8]:], e.awaited, e.extra)
+        if e.kind == "call" and "spliced_call" not in e.extra and e.term[0] == "call":
+            wc = _as_wrapper_call(prog, fi, Event(e.idx, e.kind, term, term, e.node, e.stmt, guards, iters, e.tries, e.awaited, e.extra))
+            if wc is not None:
+                subst[e.term] = wc
+                add("call", wc, e.node, e.stmt, guards, iters, e.tries, e.awaited, e.extra)
+                changed = True
+                continue
         callee, recv = _resolve_callee(prog, fi, e) if (e.kind == "call" and "spliced_call" not in e.extra) else (None, None)
         if callee is not None and _is_context_manager(callee) and is_new_helper(callee) and spliceable(prog, fi, callee) and isinstance(e.stmt, (ast.With, ast.AsyncWith)) \
                 and any(it.context_expr is e.node for it in e.stmt.items):
@@ -2150,8 +2234,11 @@ def _splice_pass(prog: Program, fi: FuncInfo, events: List[Event]) -> Tuple[List
                 # the call itself: a plain call event for helpers of the pinned tree; only a marker (kind
                 # "spliced") for helpers introduced later, whose call is not a fact of its own
                 add("spliced" if is_new_helper(callee) else e.kind, ("marker", callee.qualname) if is_new_helper(callee) else ("call", e.term[1], args, kws), e.node, e.stmt, guards, iters, e.tries, e.awaited, dict(e.extra, spliced_call=callee.qualname))
-                # locals of the helper must not collide with the caller's names
-                locs = {T.var(n): T.var(f"{n}§{callee.name}") for n in cs.locals if T.var(n) not in mapping}
+                # locals of the helper must not collide with the caller's names (nor with those of another call of it)
+                nth = sum(1 for x in out if isinstance(x.extra, dict) and x.extra.get("spliced_call") == callee.qualname)
+                sfx = f"§{callee.name}" if nth <= 1 else f"§{callee.name}§{nth}"
+                out[-1].extra["suffix"] = sfx
+                locs = {T.var(n): T.var(f"{n}{sfx}") for n in cs.locals if T.var(n) not in mapping}
                 full = dict(locs)
                 full.update(mapping)
                 taken: Dict[int, Term] = {}
@@ -2161,7 +2248,7 @@ def _splice_pass(prog: Program, fi: FuncInfo, events: List[Event]) -> Tuple[List
                     if ce.kind == "yield" and _takes(ce.term):
                         # a value that is taken out of a container as it is yielded: name it once (using the expression
                         # wherever the consumer uses the value would repeat the removal)
-                        tv = T.var(f"yielded{len(taken) + 1}§{callee.name}")
+                        tv = T.var(f"yielded{len(taken) + 1}{sfx}")
                         taken[ce.idx] = tv
                         add("bind", ("bind", tv, T.replace(ce.term, full)), ce.node, e.stmt, guards + T.replace(ce.guards, full), iters + T.replace(ce.iters, full),
                             e.tries + ce.tries, False, dict(ce.extra, via=callee.qualname))
